@@ -67,6 +67,7 @@ fn main() {
                 "arith" => tensors::record_arith(seed, tier, &mut trace, &mut rep),
                 "training" => training::record_training(seed, tier, &mut trace, &mut rep),
                 "threads" => training::record_threads(seed, tier, &mut trace, &mut rep),
+                "optslots" => training::record_optslots(seed, tier, &mut trace, &mut rep),
                 "randomsweep" => random::sweep(&mut rep, if tier == "thorough" { 1 } else { 4099 }),
                 _ => panic!("unknown record group {}", group),
             }
